@@ -5,6 +5,7 @@
 -- operations of the three base fields (Winter/Model/Field.lean) and the proofs with a Mathlib field.
 -- Integers are `Nat` (usize without wrap; the sizes involved are trace lengths, far below 2^64);
 -- every panic / error of the Rust code is an explicit outcome.
+import Winter.Model.Field
 
 namespace Model.Divisor
 
@@ -300,5 +301,21 @@ def setNumTransitionExemptions (n : Nat) (ds : List Degree) (e : Nat) : Res Nat 
     if ds.any (fun d => ce - 1 + n < d.evalDegree n) then .panic "attempt to subtract with overflow"
     else if ds.any (fun d => e > ce - 1 + n - d.evalDegree n) then .panic "number of transition exemptions cannot exceed max"
     else .ok e
+
+-- ================================================================================ the three base fields
+/-- the code's field operations on raw words (`BaseElement.0`) of one of the three base fields:
+    what the driver executes and what WinterProofs/C16Inst.lean instantiates the theorems with -/
+def rawOps (F : Model.FieldImpl) : Ops Nat where
+  zero := F.new 0
+  one := F.new 1
+  add := F.add
+  sub := F.sub
+  mul := F.mul
+  pow := F.exp
+  div := fun a b => match F.div a b with
+    | .done r => some r
+    | .out => none
+  ofNat := F.new
+  root := F.rootOfUnity
 
 end Model.Divisor
